@@ -24,10 +24,46 @@ func eachInstr(fn *ssa.Function, f func(b *ssa.BasicBlock, i int, in ssa.Instruc
 
 // withAnon returns fn and all its nested anonymous functions.
 func withAnon(fn *ssa.Function) []*ssa.Function {
+	return withAnon1(fn, map[*ssa.Function]bool{})
+}
+
+// withAnon1: fn, its closures, and the methods of its package whose method value (r.m) it creates - a method value
+// handed on as a callback is a closure over the receiver spelled differently.
+func withAnon1(fn *ssa.Function, seen map[*ssa.Function]bool) []*ssa.Function {
+	if seen[fn] {
+		return nil
+	}
+	seen[fn] = true
 	out := []*ssa.Function{fn}
 	for _, a := range fn.AnonFuncs {
-		out = append(out, withAnon(a)...)
+		out = append(out, withAnon1(a, seen)...)
 	}
+	for _, m := range boundMethodsIn(fn) {
+		out = append(out, withAnon1(m, seen)...)
+	}
+	return out
+}
+
+// boundMethodsIn: the declared methods (same package) of which fn creates a bound method value.
+func boundMethodsIn(fn *ssa.Function) []*ssa.Function {
+	var out []*ssa.Function
+	eachInstr(fn, func(_ *ssa.BasicBlock, _ int, in ssa.Instruction) {
+		mc, ok := in.(*ssa.MakeClosure)
+		if !ok {
+			return
+		}
+		w, ok := mc.Fn.(*ssa.Function)
+		if !ok || w.Synthetic == "" || len(mc.Bindings) != 1 {
+			return
+		}
+		mo, _ := w.Object().(*types.Func)
+		if mo == nil || fn.Pkg == nil || mo.Pkg() != fn.Pkg.Pkg {
+			return
+		}
+		if m := fn.Prog.FuncValue(mo); m != nil && m.Blocks != nil {
+			out = append(out, m)
+		}
+	})
 	return out
 }
 
@@ -699,6 +735,25 @@ func chanFieldOf(v ssa.Value) (*types.Var, ssa.Value) {
 			}
 		}
 	}
+	// "the field's channel or nil" (a select case switched off by a nil channel): the channel of that field
+	if ph, ok := v.(*ssa.Phi); ok {
+		var pf *types.Var
+		var pb ssa.Value
+		for _, ed := range ph.Edges {
+			if isNilConst(ed) || ed == ssa.Value(ph) {
+				continue
+			}
+			if _, isPhi := ed.(*ssa.Phi); isPhi {
+				return nil, nil
+			}
+			ef, eb := chanFieldOf(ed)
+			if ef == nil || (pf != nil && ef != pf) {
+				return nil, nil
+			}
+			pf, pb = ef, eb
+		}
+		return pf, pb
+	}
 	return nil, nil
 }
 
@@ -1213,4 +1268,10 @@ func (p *Prog) concreteIfaceTypes(v ssa.Value, depth int) ([]types.Type, bool) {
 	}
 	walk(v, depth)
 	return out, ok
+}
+
+// isStringVal: the value has a string type.
+func isStringVal(v ssa.Value) bool {
+	b, ok := v.Type().Underlying().(*types.Basic)
+	return ok && b.Info()&types.IsString != 0
 }
